@@ -565,3 +565,31 @@ def rule_A7(ctx, R):
                               i["span"]["file"], i["span"]["line"]))
     res.need(3, "hold types")
     return res
+
+
+def rule_D2(ctx, R):
+    res = RuleResult("D2", "drop glue reaches every hold and key: no field of a crate type that can own a hold, a key or user data is "
+                           "wrapped in ManuallyDrop / MaybeUninit (which switch the field's destructor off) unless the type has a Drop "
+                           "impl of its own - otherwise dropping the value (e.g. while a panic unwinds) leaks the lock and the key")
+    from roles import by_value_types
+    SUPPRESS = ("std::mem::ManuallyDrop", "std::mem::MaybeUninit")
+    for a in ctx.F.adts.values():
+        if not a.get("span") or a["span"].get("exp"):
+            pass
+        bad = None
+        for v in a["variants"]:
+            for fld in v["fields"]:
+                for x in by_value_types(fld["ty"]):
+                    if x["k"] == "adt" and x["path"] in SUPPRESS:
+                        inner = [y for y in ty_walk(x) if y is not x]
+                        owns = any(y["k"] in ("param", "alias") or (y["k"] == "adt" and (y.get("local") or y["path"] == KEY)) for y in inner)
+                        if owns and not a.get("drop_fn"):
+                            bad = (fld["name"], x["s"])
+        if bad:
+            res.bad(Violation("D2", a["path"], "field " + bad[0], "field `%s` of %s is a %s and the type has no Drop impl: dropping "
+                              "a %s never drops what that field owns (a hold stays locked, a key is never given back)" % (
+                                  bad[0], a["path"], bad[1], a["path"].split("::")[-1]), a["span"]["file"], a["span"]["line"]))
+        else:
+            res.ok(a["path"])
+    res.need(15, "crate types")
+    return res
